@@ -49,6 +49,9 @@ type inProgressResponseStatus struct {
 	// networkError is set when a message for this response failed to send while its task was
 	// running: nothing more can be sent for it, so it ends when the task does
 	networkError bool
+	// replacement is a new request that arrived under this response's request ID while its task was
+	// still running: it is started when that task has ended
+	replacement *gsmsg.GraphSyncRequest
 }
 
 // RequestHooks is an interface for processing request hooks
